@@ -82,4 +82,37 @@ theorem tie_rangeProofSize (n s e : Nat) (hse : s < e) (hen : e ≤ n) (hn : n <
   generalize zerosBelow (e - 1) L = q at *
   omega
 
+
+/-! ## structural facts extracted from rhp/v2/merkle.go (`extract/facts_rhp.go`) -/
+
+/-- `verifyMulti` (inside `VerifyDiffProof`) requires its accumulator to end with exactly
+`numLeaves` leaves — the check added by fix 9e80790. The model reads this flag from the code;
+the soundness theorems `c16_diff_old_sound` / `c16_diff_sound` need it to be `true`, so reverting
+the fix breaks this tie (and makes the harness keys `c16-accepts-corrupt:free:freed-index` /
+`…:diff:swap-index` fire again). -/
+theorem tie_verifyMulti_checks_leaf_count :
+    Gen.FactsRhp.verifyMultiChecksLeafCount = true ∧ codeChecksLeafCount = true := ⟨rfl, rfl⟩
+
+/-- the verdict of `verifyMulti` is exactly the three conjuncts the model has -/
+theorem tie_verifyMulti_verdict :
+    Gen.FactsRhp.verifyMultiVerdict = ["acc.root() == root", "len(treeHashes) == 0", "acc.numLeaves == numLeaves"] ∧
+    Gen.FactsRhp.verifyDiffProofPasses = 2 := ⟨rfl, rfl⟩
+
+/-- both range verifiers compare the proof length with `RangeProofSize` before anything else
+(`c16_range_length_fixed`, `c16_leaf_range_length_fixed`) -/
+theorem tie_range_length_checks :
+    Gen.FactsRhp.verifySectorRangeProofChecksLength = true ∧
+    Gen.FactsRhp.rangeProofVerifierChecksLength = true := ⟨rfl, rfl⟩
+
+/-- the bounds up to which builder and verifier walk right of the range, and the constants -/
+theorem tie_rhp_constants :
+    Gen.FactsRhp.buildRangeRightBound = maxInt32 ∧
+    Gen.FactsRhp.verifyRangeRightBound = maxUint64 ∧
+    Gen.FactsRhp.leavesPerSector = leavesPerSector ∧
+    Gen.FactsRhp.leafSize = 64 ∧
+    Gen.FactsRhp.sectorSize = Gen.FactsRhp.leafSize * Gen.FactsRhp.leavesPerSector ∧
+    Gen.FactsRhp.leavesPerSector = 2 ^ 16 ∧
+    Gen.FactsRhp.leafHashPrefix = 0 ∧ Gen.FactsRhp.nodeHashPrefix = 1 := by
+  refine ⟨rfl, rfl, rfl, rfl, by decide, by decide, rfl, rfl⟩
+
 end C16
